@@ -312,6 +312,27 @@ pub fn run(args: &Args) -> i32 {
         });
     }
 
+    // 2c. which wires carry data: blocks at and around the 255/0 seam and the pad-column boundaries, alone and together
+    {
+        let blocks: Vec<Vec<usize>> = vec![vec![0], vec![255], vec![0, 255], vec![254, 255], vec![0, 1], vec![255, 0, 1], vec![253, 254, 255, 0], vec![7, 8], vec![100, 101], vec![128], vec![1], vec![254], (248..=255).collect(), (0..=7).collect(), (250..=255).chain(0..=5).collect()];
+        let nb = blocks.len() as u64;
+        rep.run("wire-occupancy-patterns", nb * nb, 300, true, "every ordered pair (incl. twice the same) of 15 wire blocks {0}, {255}, {0,255}, {254,255}, {0,1}, {255,0,1}, {253..0}, {7,8}, {100,101}, {128}, {1}, {254}, {248..255}, {0..7}, {250..5}: the union carries pulses (and the pads facing the first wire a cluster)", |k, loc| {
+            let (a, b) = (&blocks[(k / nb) as usize], &blocks[(k % nb) as usize]);
+            let mut sig = Signals::default();
+            for (i, &w) in a.iter().chain(b.iter()).enumerate() {
+                let s = sig.wires.entry(w).or_insert_with(|| vec![0.0; 120]);
+                add_wire_pulse(s, 20 + (i % 3) * 5, 100.0 + i as f64);
+            }
+            let col = wire_column(a[0]);
+            for (i, amp) in [40.0, 100.0, 55.0].iter().enumerate() {
+                let mut s = vec![0.0; 120];
+                add_pad_pulse(&mut s, 20, *amp);
+                sig.pads.insert((col, 200 + i), s);
+            }
+            evaluate(SIM_RUN, &EvS::from_signals(&sig, 8).encode(), json!({"wires_with_data": a.iter().chain(b.iter()).collect::<Vec<_>>()}), loc);
+        });
+    }
+
     // 3. other run numbers (maps / calibrations present or absent)
     let runs = [0u32, 2941, 4418, 7026, 9277, 10418, 11084, 11200, 20000, u32::MAX - 1];
     let real = hits_event(&[Hit { wire: 20, bin: 30, z: 0.1013, amp: 120.0 }, Hit { wire: 22, bin: 30, z: 0.35, amp: 90.0 }], 0.004, 9);
